@@ -5,6 +5,7 @@
 import TinyHttpModel.RespCase
 import TinyHttpModel.ConnCase
 import TinyHttpModel.QueueCase
+import TinyHttpModel.WholeCase
 import TinyHttpModel.PoolCase
 import TinyHttpModel.SrvCase
 import TinyHttpModel.SeqCase
@@ -19,7 +20,7 @@ def handle (line : String) : Option String :=
     | (kind, _) :: rest =>
       if kind == "resp" then some (RespCase.run rest)
       else if kind == "conn" then some (ConnCase.run rest)
-      else if kind == "queue" then some (QueueCase.run rest)
+      else if kind == "queue" then some (WholeCase.run rest)
       else if kind == "pool" then some (PoolCase.run rest)
       else if kind == "srv" then some (SrvCase.run rest)
       else if kind == "seq" then some (SeqCase.run rest)
